@@ -362,7 +362,14 @@ def main(pid, tier, seed, cfg):
         for a in ("A1", "A2", "A10", "A12", "A13", "A14"):
             if a not in assumes:
                 assumes.append(a)
-    trusted = [ASSUMPTIONS[a] for a in sorted(assumes, key=lambda x: int(x[1:]))] + list(cfg.get("trusted", [])) + assumed_lemmas
+    ownership = []
+    for mn in cfg.get("modules", []):
+        for c in importlib.import_module(mn).M.contracts:
+            if pid in c.properties:
+                for name, why in (getattr(c, "owned_elements", None) or {}).items():
+                    ownership.append("assumed ownership in %s: the elements of `%s` may be updated in place by the loop over them - %s"
+                                     % (c.key, name, why))
+    trusted = [ASSUMPTIONS[a] for a in sorted(assumes, key=lambda x: int(x[1:]))] + list(cfg.get("trusted", [])) + assumed_lemmas + ownership
     proof_block = dict(
         obligations=n_obl, discharged=n_dis,
         functions_under_contract=functions, lemmas=[dict(name=l["name"], status=l["status"], time_s=l.get("time_s")) for l in lemmas],
